@@ -236,7 +236,7 @@ Section Honest.
 
   (* the node's transport identity and the address it signs with (model/Identity.v) *)
   Definition honest_pid : bytes := ID.peerid (compress (pub d)).
-  Definition honest_addr : bytes := ID.signing_addr keccak pub d.
+  Definition honest_addr : bytes := ID.pubkey_addr keccak pub d.
 
   Lemma honest_host_id : ID.host_id pub compress (ID.pad32 (ID.min_be d)) = Some honest_pid.
   Proof. unfold ID.host_id. rewrite IDP.unmarshal_padded by exact d_range. reflexivity. Qed.
@@ -344,12 +344,13 @@ Proof.
 Qed.
 
 Theorem identity_collision_is_key_collision keccak decompress p p' A :
+  ID.canonical p -> ID.canonical p' ->
   p <> p' ->
   ID.addr_of_peerid keccak decompress p = Some A -> ID.addr_of_peerid keccak decompress p' = Some A ->
   exists c c' P P', c <> c' /\ decompress c = Some P /\ decompress c' = Some P' /\
                     ID.eth_addr keccak P = A /\ ID.eth_addr keccak P' = A.
 Proof.
-  unfold ID.addr_of_peerid. intros Hne H1 H2.
+  unfold ID.addr_of_peerid. intros _ _ Hne H1 H2.
   destruct (ID.extract_pub p) as [c|] eqn:E1; [|discriminate].
   destruct (ID.extract_pub p') as [c'|] eqn:E2; [|discriminate].
   destruct (decompress c) as [P|] eqn:D1; [|discriminate]. destruct (decompress c') as [P'|] eqn:D2; [|discriminate].
